@@ -84,7 +84,7 @@ impl Sub for SaltHistory {
                                 let m = (r >> 24) as usize % c.messages_per_key;
                                 let msg = message(c.plan, k, m);
                                 let sk = if own.is_empty() { &keys[k].sk } else { &own[k] };
-                                out.push((t, k, m, api::sign(&msg, sk).to_bytes()));
+                                out.push((t, k, m, api::sign_unbounded(&msg, sk).to_bytes()));
                             }
                             out
                         })
